@@ -502,7 +502,7 @@ func (c *collector) getName(m metricdata.Metrics, typ *dto.MetricType) string {
 		name = strings.TrimSuffix(name, counterSuffix)
 		// If the last character is an underscore, or would be converted to an underscore, trim it from the name.
 		// an underscore will be added back in later.
-		if convertsToUnderscore(rune(name[len(name)-1])) {
+		if len(name) > 0 && convertsToUnderscore(rune(name[len(name)-1])) {
 			name = name[:len(name)-1]
 		}
 	}
